@@ -129,6 +129,7 @@ pub fn run(scn: &MScn, oracles: &[Oracle], out: &mut Outcome, fp: &mut Fp, tr: &
     let mut int_frames = 0u64;
     let mut sig_frames = 0u64;
     let mut foreign = false;
+    let mut pending_break = false;
 
     macro_rules! fail {
         ($class:expr, $detail:expr) => {{
@@ -346,7 +347,13 @@ pub fn run(scn: &MScn, oracles: &[Oracle], out: &mut Outcome, fp: &mut Fp, tr: &
                         }
                         out.bump("harness.foreign-divergence");
                         foreign = true;
-                        break 'ops;
+                        // the step's own frame / observer oracles are still evaluated (their expected
+                        // values were computed from the pre-state, where both sides agreed); the run
+                        // ends after them
+                        if !(has(Oracle::Observer) || has(Oracle::Frames)) {
+                            break 'ops;
+                        }
+                        pending_break = true;
                     }
 
                     // ---- C09 protection invariants (independent of the model's execution details)
@@ -433,12 +440,21 @@ pub fn run(scn: &MScn, oracles: &[Oracle], out: &mut Outcome, fp: &mut Fp, tr: &
                         all.extend(m.reads.iter().copied());
                         all.extend(m.writes.keys().copied());
                         for a in all {
-                            if a >= 0xFE00 {
-                                continue; // D9
-                            }
                             let s = accm.get(&a).copied().unwrap_or_default();
                             let mr = m.reads.contains(&a);
                             let mw = m.writes.contains_key(&a);
+                            if a >= 0xFE00 {
+                                // D9: READ marks on I/O addresses are not pinned. WRITTEN is: a store is a
+                                // write of an I/O address exactly when an internal register or a device
+                                // accepted it (the environment log says which)
+                                if s.written() != mw {
+                                    fail!("observer-written-io", format!("after {} at x{:04X}: observer.written(x{a:04X}) = {}, but the store was {} by the register/device mapped there", info.class, m.prefetch_pc(), s.written(), if mw { "accepted" } else { "not accepted" }));
+                                }
+                                if s.modified() && !mw {
+                                    fail!("observer-modified-unwritten", format!("x{a:04X} marked modified but was not written"));
+                                }
+                                continue;
+                            }
                             let changed = m.writes.get(&a).copied().unwrap_or(false);
                             if s.read() != mr {
                                 fail!("observer-read", format!("after {} at x{:04X}: observer.read(x{a:04X}) = {}, model {mr}", info.class, m.prefetch_pc(), s.read()));
@@ -482,6 +498,9 @@ pub fn run(scn: &MScn, oracles: &[Oracle], out: &mut Outcome, fp: &mut Fp, tr: &
                         }
                     }
 
+                    if pending_break {
+                        break 'ops;
+                    }
                     tr.add(w.sim.pc as u64);
                     tr.add(w.sim.psr().get() as u64);
                     for k in 0..8 {
